@@ -3,6 +3,22 @@
 import json, os
 ROOT = os.path.dirname(os.path.dirname(os.path.abspath(__file__)))
 CLAIMED = {
+ 'C05': dict(
+    text='Bounded symbolic model checking of the real code: generated::unit::parse with both logos-generated DFAs (every gotoN function and jump table executed from MIR; only the logos runtime is a model), UnitParser::next, and <Compound as FromStr>::from_str (Parser::parse_unit, grammar::unit, eval::unit, Compound::update) are executed on words whose characters are solver variables: all words of <= 3 (thorough 4) word characters, 1..2 (thorough 3) symbolic letters in front of every documented name, every documented name alone; the solver walks the DFA and every accepted word must be read as one of the valid [SI prefix] + unit name readings computed from the documented vocabulary (tools/gen/data.toml), standard symbols must denote the standard unit, every unit static must declare the standard scale (spec/units.py from the SI brochure, yard-pound agreement, US customary measure); unit expressions w1 o1 w2 o2 w3 with symbolic separators and symbolic exponent digits must yield the reference compound. Counterexamples are replayed on the native dev and release builds; deviations that the existing tests pin and the logos back-tracking defect are listed known findings.',
+    note='Trusted: MIR dump, rustc macro expansion (jump-table enum layouts), mirsym + logos runtime model, spec/units.py, spec/unitnames.py, tools/gen/data.toml as the documentation of spellings, z3. Outside: longer arbitrary words, expressions of more than 3 words, the characters mu / Omega / - (the query lexer never passes them to the unit parser).',
+    design='§5 C05', technique='symbolic execution of rustc MIR incl. the generated DFA over symbolic characters (z3 feasibility of jump-table classes, all-SAT word enumeration), replay on native builds'),
+ 'C06': dict(
+    text='Bounded symbolic model checking of the real code: Lexer::next, Parser (nth/count_skip/skip/eat/bump/close_at/checkpoint), grammar::{root, operation, operand, op, value, unit, call_arguments} over the syntree builder model, the Query iterator and eval::eval are executed from MIR on query templates whose operator characters and blank characters are solver variables and whose literal values are unbounded symbolic rationals: arithmetic templates of 2..5 operands with every parenthesisation under many blank layouts (none where the property permits it, doubled, tabs, leading/trailing), cast templates (+ - tighter than `to`, chained casts), call templates with blanks around parentheses and commas. On every path the real syntax tree, folded left to right as the evaluator does, must equal the reference parse (^ > * / > + - > to, left associative) and z3 proves the value equal to the reference evaluation for all literal values; exactly one result per query. Counterexamples are rendered as text and replayed (query and tree) on the native dev and release builds.',
+    note='Trusted: MIR dump, mirsym + models (syntree builder/tree model, str/VecDeque, num as Real, logos runtime for unit words), spec/exprs.py, z3. Outside: + and - without surrounding blanks (the lexer reads the sign into the literal; not promised by the property), deeper expressions, brace escapes.',
+    design='§5 C06', technique='symbolic execution of rustc MIR with symbolic operator and blank characters + z3 (tree comparison per path, nonlinear real arithmetic for values), replay on native builds'),
+ 'C08': dict(
+    text='Bounded symbolic model checking of the real code: <rational::display::Display as fmt::Display>::fmt with format_big, format_whole, emit and digits executed from MIR on +-(Q*d + R)/d with the integer part Q (< 10^12, thorough 10^24) and the remainder R solver variables and the denominator, limit and exponent limit concrete per job; the printed pieces are read back (sign, digits, point, mark, exponent) and z3 proves: every digit in 0..9, printed value <= |x| < printed value + one unit in the last printed place, minus sign iff negative, continuation mark iff something non-zero was cut off. Counterexamples are replayed through Rational::display on the native dev and release builds.',
+    note='Trusted: MIR dump, mirsym + models (fmt::Formatter as piece list, BigInt::to_string as digit vector, division by a concrete denominator as quotient/remainder witnesses, iterator adapters), z3 linear integer arithmetic. Outside: denominators outside the grid, integer parts beyond the bound, show_continuation = false.',
+    design='§5 C08', technique='symbolic execution of rustc MIR + z3 linear integer/real arithmetic over symbolic integer part and remainder, replay on native builds'),
+ 'C12': dict(
+    text='Bounded symbolic model checking of the real code: (A) one inductive step of Lexer::next from an arbitrary lexer state (string of <= 5, thorough 6, characters, each symbolic ASCII or a listed multi-byte character, arbitrary prefix character, escape flag symbolic): None exactly at the end, otherwise a token of >= 1 byte ending inside the input on a character boundary with pos advanced by its length, and no dependence on anything before pos; by induction over suffixes every string within the bound is tiled by its tokens. (B) whole streams of <= 3 characters lexed and parsed: the tree leaves are exactly the tokens. (C) Parser + grammar over the syntree builder model with the lexer replaced by a stub whose token KINDS are solver variables (<= 4, thorough 5 tokens, constrained to sequences the lexer can emit): a tree is always built, every token is requested and forwarded exactly once, leaves = tokens in order with contiguous spans. Counterexamples are realised as text and replayed (lex + tree) on the native dev and release builds.',
+    note='Trusted: MIR dump, mirsym + models (str/char, syntree builder transliteration), z3. Outside: tokens longer than the bound (only the length of ONE token is bounded by the induction), soups longer than the bound.',
+    design='§5 C12', technique='symbolic execution of rustc MIR (dev+release): inductive lexer step over symbolic characters, parser over symbolic token kinds (all-SAT), replay on native builds'),
  'C01': dict(
     text='Bounded symbolic model checking of the real code: the whole pipeline (Lexer::next, Parser and grammar::{root, operation, value}, the Query iterator, eval::eval with its OPERATION/NUMBER/PERCENTAGE arms, eval::{add,sub,mul,div,pow}, the Rational operators) is executed from the dev and release MIR on query templates L0 o1 L1 o2 L2 .. with every placement of parentheses and optional percent signs; every operator character is a solver variable over + - * / ^ (the lexer\'s branches on it are decided by feasibility queries) and every literal\'s value is an unbounded symbolic rational (the literal reader is cut at the literal\'s span; C07 proves that cut function exact); on every path z3 proves the result equal to an independent exact evaluator applied to the reference parse, DivideByZero reported exactly when the reference divides by zero (including zero to a negative power) and never a number in that case. Counterexamples are rendered as query text and replayed on the native dev and release builds.',
     note='Trusted: MIR dump, mirsym + models (num as Int/Real, syntree builder/tree model, str/Vec/VecDeque), spec/exprs.py, the rational-function normal form that turns value equalities into expanded polynomial disequalities before z3 decides them, z3 (nonlinear real arithmetic). Outside: more than 4 (thorough 5) operands, exponents beyond [-3,3], non-integer exponents (C04), digits of literals (C07).',
